@@ -154,12 +154,16 @@ def run_property(pid, tier, seed, only_units=None, quiet=False):
         variants = u.variants
         if tier == 'thorough' and u.thorough_variants:
             variants = u.thorough_variants
+        if tier == 'quick' and meta.get('quick_first_variant_only'):
+            # the aggregate property (C10) re-runs every unit: in the quick tier one variant per unit, all in thorough
+            variants = variants[:1]
         for k, d in enumerate(variants):
             jobs.append((u, cpath, ranges, 'v%d' % k, d, bdir))
     results = []
     workers = int(os.environ.get('VERIF_JOBS', '16'))
     with cf.ThreadPoolExecutor(max_workers=workers) as ex:
-        futs = [ex.submit(D.verify_variant, u, cpath, ranges, vn, d, bdir, tier)
+        skipv = bool(meta.get('skip_vacuity'))
+        futs = [ex.submit(D.verify_variant, u, cpath, ranges, vn, dict(d, CXC_NOCOVER=1) if skipv else d, bdir, tier)
                 for (u, cpath, ranges, vn, d, bdir) in jobs]
         for f in futs:
             results.append(f.result())
